@@ -7,6 +7,7 @@ import (
 	"reflect"
 	"sort"
 
+	corev1 "k8s.io/api/core/v1"
 	apierrors "k8s.io/apimachinery/pkg/api/errors"
 	"k8s.io/apimachinery/pkg/api/meta"
 	"k8s.io/apimachinery/pkg/fields"
@@ -48,7 +49,13 @@ type SimAPI struct {
 
 // NewSimAPI builds the wrapped client.
 func NewSimAPI(run *Run, scheme *runtime.Scheme, statusSubresources []client.Object, objs ...client.Object) *SimAPI {
-	b := fake.NewClientBuilder().WithScheme(scheme).WithObjects(objs...)
+	b := fake.NewClientBuilder().WithScheme(scheme).WithObjects(objs...).
+		WithIndex(&corev1.Pod{}, "spec.nodeName", func(o client.Object) []string {
+			if p, ok := o.(*corev1.Pod); ok {
+				return []string{p.Spec.NodeName}
+			}
+			return nil
+		})
 	if len(statusSubresources) > 0 {
 		b = b.WithStatusSubresource(statusSubresources...)
 	}
